@@ -18,8 +18,9 @@ Definition enc_pairs (K : Fops Qc) (points ncoords : list (Qc * Qc * Qc)) (thr :
 Definition run_esp (K : Fops Qc) (c : Z) (args : list sx) : option sx :=
   match c, args with
   (* 250: electrostatic_potential(basis, P, points, nuclear_coords, nuclear_charges, T, thr)
-          -> (1 values undefined-bits pairs diagV) or (0) when the call is refused;
-          diagV[a][p] = untransformed integral V_aa at point p (for the tolerance scale) *)
+          -> (1 values undefined-bits pairs diagV squareb) or (0) when the call is refused;
+          diagV[a][p] = untransformed integral V_aa at point p (for the tolerance scale);
+          squareb = the shape hypothesis of the transform theorem holds for the integral array *)
   | 250%Z, [basis; pm; pts; nco; nch; t; thr] =>
       let bs := dec_list dec_shell basis in
       let points := dec_list dec_pt3 pts in
@@ -32,7 +33,8 @@ Definition run_esp (K : Fops Qc) (c : Z) (args : list sx) : option sx :=
       | Some v =>
           Some (SL [SZ 1; enc1 v; enc_list enc_b (esp_undefined K points ncoords th);
                     enc_pairs K points ncoords th;
-                    enc2 (mk (length V) (fun a => nth a (nth a V []) []))])
+                    enc2 (mk (length V) (fun a => nth a (nth a V []) []));
+                    enc_b (squareb (nfun_basis bs) (length points) V)])
       end
   (* 251: the nuclear part alone: (points ncoords ncharges thr) -> (values pairs), values[p] =
           sum over kept nuclei of Z / d  (= - external) *)
